@@ -10,5 +10,7 @@ CONSTANTS
  Foreign = FALSE
  KindOf <- AllCalls
  LoadOf <- NoLoad
+ Shutdowns = FALSE
+ CancelAware = TRUE
  ClearInputs = TRUE
 INVARIANT NeverBurst
